@@ -20,7 +20,9 @@
            offset += 5 + length and classifies every item.
 
    Content independent: bodies are byte ranges [lo, len]; header fields that the code copies
-   (opcode, iid) are checked by the conformance harness, the model carries "as sent" flags. *)
+   (opcode, iid) are checked by the conformance harness, the model carries "as sent" flags.
+   Every action is one application of a pure step operator (AccStep, RdStep, CoStep) so that the
+   trace module can also evaluate whole runs as functions. *)
 EXTENDS Naturals, Sequences, FiniteSets, TLC
 
 TAG       == 16      \* Poly1305 tag: KEY_OVERHEAD_SIZE
@@ -34,10 +36,9 @@ COAP_HDR  == 5       \* control, tid, status, body length(2)
 Min(a, b) == IF a < b THEN a ELSE b
 RECURSIVE SumLen(_, _)
 SumLen(s, k) == IF k = 0 THEN 0 ELSE SumLen(s, k - 1) + s[k].len
-\* ranges << [lo, len] >> that tile 0..n in order
-Contig(rs, n) ==
-    /\ SumLen(rs, Len(rs)) = n
-    /\ \A k \in 1..Len(rs) : rs[k].lo = SumLen(rs, k - 1)
+RECURSIVE TilesFrom(_, _, _)      \* ranges << [lo, len] >> that tile 0..n in order
+TilesFrom(rs, k, at) == IF k > Len(rs) THEN at ELSE IF rs[k].lo # at THEN 0 - 1 ELSE TilesFrom(rs, k + 1, at + rs[k].len)
+Contig(rs, n) == TilesFrom(rs, 1, 0) = n
 
 VARIABLES cs,        \* the case
           pc,
@@ -50,8 +51,8 @@ VARIABLES cs,        \* the case
           co         \* coap: request tids, decoder state
 vars == <<cs, pc, frags, eoff, kctr, air, acc, rd, co>>
 
-NullAcc == [next |-> 1, ctr |-> 0, phase |-> "idle", declared |-> 0, got |-> << >>, ok |-> TRUE]
-NullRd  == [next |-> 1, status |-> 0, expected |-> 0, got |-> << >>]
+NullAcc == [next |-> 1, ctr |-> 0, phase |-> "idle", declared |-> 0, have |-> 0, got |-> << >>, ok |-> TRUE]
+NullRd  == [next |-> 1, status |-> 0, expected |-> 0, have |-> 0, got |-> << >>]
 NullCo  == [req |-> << >>, off |-> 0, idx |-> 0, res |-> << >>]
 
 \* ====================================================================== BLE request
@@ -100,26 +101,26 @@ WriteDone ==
     /\ UNCHANGED <<cs, frags, eoff, kctr, air, acc, rd, co>>
 
 \* a conformant accessory takes the next write
-AccStep(a, f) ==
-    LET opened == (cs.enc = 0) \/ (f.ctr = a.ctr)           \* AEAD opens only under the expected counter
-        a1 == [a EXCEPT !.next = @ + 1, !.ctr = @ + cs.enc]
+AccStep(c, a, f) ==
+    LET opened == (c.enc = 0) \/ (f.ctr = a.ctr)           \* AEAD opens only under the expected counter
+        a1 == [a EXCEPT !.next = @ + 1, !.ctr = @ + c.enc]
         bad == [a1 EXCEPT !.ok = FALSE]
     IN IF ~opened THEN bad
        ELSE IF a.phase = "idle" THEN
             IF f.ctl # 0 \/ ~f.idok THEN bad
             ELSE IF f.hdr = HDR_EMPTY /\ f.len = 0 THEN [a1 EXCEPT !.phase = "complete", !.declared = 0]
             ELSE IF f.hdr # HDR_FIRST \/ f.len > f.declared THEN bad
-            ELSE [a1 EXCEPT !.declared = f.declared, !.got = << [lo |-> f.lo, len |-> f.len] >>,
+            ELSE [a1 EXCEPT !.declared = f.declared, !.have = f.len, !.got = << [lo |-> f.lo, len |-> f.len] >>,
                             !.phase = IF f.len = f.declared THEN "complete" ELSE "more"]
        ELSE IF a.phase = "more" THEN
-            IF f.ctl # 128 \/ f.hdr # HDR_CONT \/ ~f.tidok \/ SumLen(a.got, Len(a.got)) + f.len > a.declared THEN bad
-            ELSE [a1 EXCEPT !.got = Append(@, [lo |-> f.lo, len |-> f.len]),
-                            !.phase = IF SumLen(a.got, Len(a.got)) + f.len = a.declared THEN "complete" ELSE "more"]
+            IF f.ctl # 128 \/ f.hdr # HDR_CONT \/ ~f.tidok \/ a.have + f.len > a.declared THEN bad
+            ELSE [a1 EXCEPT !.got = Append(@, [lo |-> f.lo, len |-> f.len]), !.have = @ + f.len,
+                            !.phase = IF a.have + f.len = a.declared THEN "complete" ELSE "more"]
        ELSE bad                                              \* a fragment after the body was complete
 
 AccRecv ==
     /\ cs.part = "req" /\ acc.next <= Len(air)
-    /\ acc' = AccStep(acc, frags[air[acc.next].frag])
+    /\ acc' = AccStep(cs, acc, frags[air[acc.next].frag])
     /\ UNCHANGED <<cs, pc, frags, eoff, kctr, air, rd, co>>
 
 ReqDone ==
@@ -127,15 +128,13 @@ ReqDone ==
     /\ pc' = "done"
     /\ UNCHANGED <<cs, frags, eoff, kctr, air, acc, rd, co>>
 
+AccAccepts(c, a) == a.ok /\ a.phase = "complete" /\ a.declared = c.n /\ Contig(a.got, c.n)
+
 \* ---------------------------------------------------------------------- properties (request)
 \* no write is larger than the negotiated size
 BleFragmentSize == cs.part = "req" => \A k \in 1..Len(air) : air[k].len <= cs.p + TAG * cs.enc
 \* a conformant accessory reassembles the request: same header, declared length, body
-BleReassembly ==
-    (cs.part = "req" /\ pc = "done") =>
-        /\ acc.ok /\ acc.phase = "complete"
-        /\ acc.declared = cs.n
-        /\ Contig(acc.got, cs.n)
+BleReassembly == (cs.part = "req" /\ pc = "done") => AccAccepts(cs, acc)
 \* every continuation fragment carries data (no busy writes)
 NoEmptyContinuation == cs.part = "req" => \A k \in 1..Len(frags) : frags[k].hdr = HDR_CONT => frags[k].len >= 1
 
@@ -146,32 +145,32 @@ RespInit(case) ==
     /\ cs = case /\ pc = "first" /\ frags = << >> /\ eoff = 0 /\ kctr = case.ctr0 /\ air = << >>
     /\ acc = NullAcc /\ rd = NullRd /\ co = NullCo
 
-NFrags == Len(cs.split)
-TidWrong(k)  == (cs.fault = "tid_first" /\ k = 1) \/ (cs.fault = "tid_cont" /\ k = cs.fpos)
-FlagMissing(k) == cs.fault = "flag_cont" /\ k = cs.fpos
-Lo(k) == LET RECURSIVE S(_)
-             S(j) == IF j = 0 THEN 0 ELSE S(j - 1) + cs.split[j]
-         IN S(k - 1)
+RECURSIVE SplitLo(_, _)           \* position in the accessory's body of the bytes carried by fragment k
+SplitLo(c, k) == IF k = 1 THEN 0 ELSE SplitLo(c, k - 1) + c.split[k - 1]
+TidWrong(c, k)    == (c.fault = "tid_first" /\ k = 1) \/ (c.fault = "tid_cont" /\ k = c.fpos)
+FlagMissing(c, k) == c.fault = "flag_cont" /\ k = c.fpos
 
-ReadFirst ==             \* _read_pdu: read, decrypt, decode_pdu
-    /\ cs.part = "resp" /\ pc = "first"
-    /\ kctr' = kctr + cs.enc
-    /\ IF TidWrong(1) THEN /\ pc' = "rejected" /\ rd' = [rd EXCEPT !.next = 2]
-       ELSE LET declared == IF cs.short = 1 THEN 0 ELSE cs.m
-                got == IF cs.short = 1 THEN << >> ELSE << [lo |-> 0, len |-> cs.split[1]] >>
-            IN /\ rd' = [next |-> 2, status |-> cs.st, expected |-> declared, got |-> got]
-               /\ pc' = IF SumLen(got, Len(got)) < declared THEN "more" ELSE "done"
-    /\ UNCHANGED <<cs, frags, eoff, air, acc, co>>
+\* the reader: r = [pc, kctr, rd]
+RdStep(c, r) ==
+    IF r.pc = "first" THEN                \* _read_pdu: read, decrypt, decode_pdu
+        IF TidWrong(c, 1) THEN [pc |-> "rejected", kctr |-> r.kctr + c.enc, rd |-> [r.rd EXCEPT !.next = 2]]
+        ELSE LET declared == IF c.short = 1 THEN 0 ELSE c.m
+                 n1 == IF c.short = 1 THEN 0 ELSE c.split[1]
+             IN [pc |-> IF n1 < declared THEN "more" ELSE "done", kctr |-> r.kctr + c.enc,
+                 rd |-> [next |-> 2, status |-> c.st, expected |-> declared, have |-> n1,
+                         got |-> IF c.short = 1 THEN << >> ELSE << [lo |-> 0, len |-> n1] >>]]
+    ELSE                                   \* one iteration of `while len(data) < expected_length`
+        LET k == r.rd.next IN
+        IF FlagMissing(c, k) \/ TidWrong(c, k) THEN [pc |-> "rejected", kctr |-> r.kctr + c.enc, rd |-> [r.rd EXCEPT !.next = k + 1]]
+        ELSE [pc |-> IF r.rd.have + c.split[k] < r.rd.expected THEN "more" ELSE "done", kctr |-> r.kctr + c.enc,
+              rd |-> [r.rd EXCEPT !.next = k + 1, !.have = @ + c.split[k],
+                                  !.got = Append(@, [lo |-> SplitLo(c, k), len |-> c.split[k]])]]
+RdEnabled(c, r) == r.pc = "first" \/ (r.pc = "more" /\ r.rd.next <= Len(c.split))   \* otherwise the read blocks
 
-ReadCont ==              \* one iteration of `while len(data) < expected_length`
-    /\ cs.part = "resp" /\ pc = "more"
-    /\ rd.next <= NFrags                  \* the accessory has another fragment (otherwise the read blocks)
-    /\ kctr' = kctr + cs.enc
-    /\ LET k == rd.next IN
-       IF FlagMissing(k) \/ TidWrong(k) THEN /\ pc' = "rejected" /\ rd' = [rd EXCEPT !.next = k + 1]
-       ELSE LET got == Append(rd.got, [lo |-> Lo(k), len |-> cs.split[k]]) IN
-            /\ rd' = [rd EXCEPT !.next = k + 1, !.got = got]
-            /\ pc' = IF SumLen(got, Len(got)) < rd.expected THEN "more" ELSE "done"
+Read ==
+    /\ cs.part = "resp" /\ RdEnabled(cs, [pc |-> pc, kctr |-> kctr, rd |-> rd])
+    /\ LET r == RdStep(cs, [pc |-> pc, kctr |-> kctr, rd |-> rd]) IN
+         pc' = r.pc /\ kctr' = r.kctr /\ rd' = r.rd
     /\ UNCHANGED <<cs, frags, eoff, air, acc, co>>
 
 \* ---------------------------------------------------------------------- properties (response)
@@ -180,10 +179,10 @@ BleResponse ==
         /\ pc = "done" => /\ cs.fault = "none"
                           /\ rd.status = cs.st
                           /\ Contig(rd.got, cs.m)
-                          /\ rd.next = NFrags + 1                  \* every fragment consumed, none left behind
-                          /\ kctr = cs.ctr0 + cs.enc * NFrags      \* one AEAD counter per fragment
-        /\ pc = "rejected" => cs.fault # "none"                    \* only faulty responses are rejected
-        /\ (pc = "more" /\ rd.next > NFrags) => FALSE              \* the reader never waits for a fragment that is not coming
+                          /\ rd.next = Len(cs.split) + 1                  \* every fragment consumed, none left behind
+                          /\ kctr = cs.ctr0 + cs.enc * Len(cs.split)      \* one AEAD counter per fragment
+        /\ pc = "rejected" => cs.fault # "none"                           \* only faulty responses are rejected
+        /\ pc = "more" => rd.next <= Len(cs.split)                        \* the reader never waits for a fragment that is not coming
 
 \* ====================================================================== CoAP batch
 \* cs = [part "coap", items]; item = [oc ("ok" | "err" | "tid" | "ctl"), s (status), len]
@@ -191,62 +190,63 @@ CoapInit(case) ==
     /\ cs = case /\ pc = "encode" /\ frags = << >> /\ eoff = 0 /\ kctr = 0 /\ air = << >>
     /\ acc = NullAcc /\ rd = NullRd /\ co = NullCo
 
-NItems == Len(cs.items)
-
 CoapEncodeItem ==        \* encode_all_pdus: enumerate(zip(iids, data)) -> tid = index
-    /\ cs.part = "coap" /\ pc = "encode" /\ Len(co.req) < NItems
+    /\ cs.part = "coap" /\ pc = "encode" /\ Len(co.req) < Len(cs.items)
     /\ co' = [co EXCEPT !.req = Append(@, Len(co.req))]
     /\ UNCHANGED <<cs, pc, frags, eoff, kctr, air, acc, rd>>
 
 CoapEncodeDone ==
-    /\ cs.part = "coap" /\ pc = "encode" /\ Len(co.req) = NItems
+    /\ cs.part = "coap" /\ pc = "encode" /\ Len(co.req) = Len(cs.items)
     /\ pc' = "decode"
     /\ UNCHANGED <<cs, frags, eoff, kctr, air, acc, rd, co>>
 
 \* the accessory's answer to request item i: it echoes the transaction id it received
-ItemStart(i) == LET RECURSIVE S(_)
-                    S(j) == IF j = 0 THEN 0 ELSE S(j - 1) + COAP_HDR + cs.items[j].len
-                IN S(i - 1)
-RespTotal == ItemStart(NItems + 1)
-RespTid(i)  == IF cs.items[i].oc = "tid" THEN (co.req[i] + 1) % 256 ELSE co.req[i]
-RespCtlOk(i) == cs.items[i].oc # "ctl"
-RespStatus(i) == IF cs.items[i].oc = "err" THEN cs.items[i].s ELSE 0
-ItemAt(off) == IF \E i \in 1..NItems : ItemStart(i) = off THEN CHOOSE i \in 1..NItems : ItemStart(i) = off ELSE 0
+RECURSIVE ItemStart(_, _)
+ItemStart(c, i) == IF i = 1 THEN 0 ELSE ItemStart(c, i - 1) + COAP_HDR + c.items[i - 1].len
+RespTotal(c) == ItemStart(c, Len(c.items) + 1)
+RespTid(c, req, i)  == IF c.items[i].oc = "tid" THEN (req[i] + 1) % 256 ELSE req[i]
+RespStatus(c, i) == IF c.items[i].oc = "err" THEN c.items[i].s ELSE 0
+ItemAt(c, off) == IF \E i \in 1..Len(c.items) : ItemStart(c, i) = off
+                  THEN CHOOSE i \in 1..Len(c.items) : ItemStart(c, i) = off ELSE 0
 
-CoapDecodeItem ==        \* one iteration of decode_all_pdus' loop (decode_pdu + offset arithmetic)
+\* one iteration of decode_all_pdus' loop (decode_pdu + offset arithmetic): d = [pc, co]
+CoStep(c, d) ==
+    LET i == ItemAt(c, d.co.off) IN
+    IF i = 0 THEN [pc |-> "lost", co |-> d.co]               \* the walk left the item boundaries
+    ELSE LET r == IF RespTid(c, d.co.req, i) # d.co.idx THEN [k |-> "tid", s |-> 256, item |-> 0, len |-> 0]
+                  ELSE IF RespStatus(c, i) # 0 THEN [k |-> "err", s |-> RespStatus(c, i), item |-> 0, len |-> 0]
+                  ELSE IF c.items[i].oc = "ctl" THEN [k |-> "ctl", s |-> 257, item |-> 0, len |-> 0]
+                  ELSE [k |-> "ok", s |-> 0, item |-> i, len |-> c.items[i].len]
+             noff == d.co.off + COAP_HDR + c.items[i].len
+         IN [pc |-> IF noff >= RespTotal(c) THEN "done" ELSE "decode",
+             co |-> [d.co EXCEPT !.res = Append(@, r), !.idx = @ + 1, !.off = noff]]
+
+CoapDecodeItem ==
     /\ cs.part = "coap" /\ pc = "decode"
-    /\ LET i == ItemAt(co.off) IN
-       IF i = 0 THEN /\ pc' = "lost" /\ co' = co              \* the walk left the item boundaries
-       ELSE LET r == IF RespTid(i) # co.idx THEN [k |-> "tid", s |-> 256, item |-> 0, len |-> 0]
-                     ELSE IF RespStatus(i) # 0 THEN [k |-> "err", s |-> RespStatus(i), item |-> 0, len |-> 0]
-                     ELSE IF ~RespCtlOk(i) THEN [k |-> "ctl", s |-> 257, item |-> 0, len |-> 0]
-                     ELSE [k |-> "ok", s |-> 0, item |-> i, len |-> cs.items[i].len]
-                noff == co.off + COAP_HDR + cs.items[i].len
-            IN /\ co' = [co EXCEPT !.res = Append(@, r), !.idx = @ + 1, !.off = noff]
-               /\ pc' = IF noff >= RespTotal THEN "done" ELSE "decode"
+    /\ LET d == CoStep(cs, [pc |-> pc, co |-> co]) IN pc' = d.pc /\ co' = d.co
     /\ UNCHANGED <<cs, frags, eoff, kctr, air, acc, rd>>
 
 \* what the property demands for item i, from the outcome class alone
-Expected(i) ==
-    LET it == cs.items[i] IN
+Expected(c, i) ==
+    LET it == c.items[i] IN
     CASE it.oc = "ok"  -> [k |-> "ok", s |-> 0, item |-> i, len |-> it.len]
       [] it.oc = "err" -> [k |-> "err", s |-> it.s, item |-> 0, len |-> 0]
       [] it.oc = "tid" -> [k |-> "tid", s |-> 256, item |-> 0, len |-> 0]
       [] it.oc = "ctl" -> [k |-> "ctl", s |-> 257, item |-> 0, len |-> 0]
+Attributed(c, res) == Len(res) = Len(c.items) /\ \A i \in 1..Len(c.items) : res[i] = Expected(c, i)
 
 \* ---------------------------------------------------------------------- properties (CoAP)
 CoapAttribution ==
     cs.part = "coap" =>
         /\ pc # "lost"
-        /\ pc = "done" => /\ Len(co.res) = NItems
-                          /\ \A i \in 1..NItems : co.res[i] = Expected(i)
+        /\ pc = "done" => Attributed(cs, co.res)
         \* the i-th result is produced from the i-th item, whatever happened before
-        /\ pc = "decode" => /\ Len(co.res) < NItems
-                            /\ co.off = ItemStart(Len(co.res) + 1)
+        /\ pc = "decode" => /\ Len(co.res) < Len(cs.items)
+                            /\ co.off = ItemStart(cs, Len(co.res) + 1)
 
 \* ======================================================================
 Next == \/ EncFirst \/ EncCont \/ EncDone \/ Write \/ WriteDone \/ AccRecv \/ ReqDone
-        \/ ReadFirst \/ ReadCont
+        \/ Read
         \/ CoapEncodeItem \/ CoapEncodeDone \/ CoapDecodeItem
 
 \* ====================================================================== bounded case spaces
